@@ -15,13 +15,15 @@ CONSTANTS EP,        \* endpoint names
           Prefixes,  \* provider prefixes explored
           Types,     \* endpoint types explored
           AllowedChoices,  \* {{}} when generating (the table is data), SUBSET Types when model checking
-          Focus            \* GEN: only scenarios with a refusing endpoint among all-healthy ones
+          Focus,           \* GEN: only scenarios with a refusing endpoint among all-healthy ones
+          Strats           \* GEN: routing-strategy variants of the server ("plain", "disc_all")
 
 VARIABLES prefix, allowed, typ, H,
           phase,     \* "cfg" | "sent" | "served" | "answered"
           served, scn
 vars == <<prefix, allowed, typ, H, phase, served, scn>>
 
+Lenient  == "strat" \in DOMAIN scn /\ scn.strat # "plain"
 Refusing == IF "refuse" \in DOMAIN scn THEN scn.refuse ELSE {}
 OfKind(e) == typ[e] \in allowed \/ typ[e] = "auto"
 Eligible  == {e \in DOMAIN typ : e \in H /\ OfKind(e)}
@@ -36,7 +38,9 @@ Init == /\ prefix \in Prefixes /\ allowed \in AllowedChoices
         /\ \E R \in SUBSET H :
               /\ (Focus => Cardinality(DOMAIN typ) = Cardinality(EP) /\ H = DOMAIN typ /\ Cardinality(R) = 1)
               /\ (~Focus => R = {})
-              /\ scn = [prefix |-> prefix, types |-> typ, H |-> H, refuse |-> R]
+              \* strat "disc_all": the server runs the discovery routing strategy with fallback "all" and refresh on
+              \* miss, and the request names a model nobody lists -- the lenient fallback must stay inside the provider
+              /\ \E st \in Strats : scn = [prefix |-> prefix, types |-> typ, H |-> H, refuse |-> R, strat |-> st]
 
 Send == phase = "cfg" /\ phase' = "sent" /\ UNCHANGED <<prefix, allowed, typ, H, served, scn>>
 \* only a healthy endpoint of the provider's kind may be contacted
@@ -45,7 +49,9 @@ Dispatch(e) == /\ phase = "sent" /\ e \in Eligible
                /\ UNCHANGED <<prefix, allowed, typ, H, scn>>
 Answer(st) == /\ phase \in {"sent", "served"}
               /\ IF phase = "served" THEN st = 200
-                 ELSE (Eligible \ Refusing) = {} /\ st >= 400     \* an error, and nobody of another kind was contacted
+                 ELSE /\ st >= 400                            \* an error, and nobody of another kind was contacted
+                      \* (whether an unknown model is an error under a lenient routing strategy is C09's business)
+                      /\ (Eligible \ Refusing) = {} \/ Lenient
               /\ phase' = "answered" /\ UNCHANGED <<prefix, allowed, typ, H, served, scn>>
 \* a model listing under the prefix: only models available on endpoints of that kind
 Listing(ms, modelsOf) == /\ phase = "answered"
